@@ -385,7 +385,7 @@ def run_interleave(spec, ctx):
     inner = {}
     fired = [False]
 
-    def hook(point):
+    def hook(point, B=None):
         if point == spec['point'] and not fired[0]:
             fired[0] = True
             Bi = SRC.build(spec['b'])
